@@ -130,6 +130,13 @@ def _set_once(ctx, rule, label, run_fn, slots, errors_fn=None):
         kept = st2 is None or _same(st2.get(k), pre[k])
         ok = bool(raised2) and kept
         ctx.ob(rule, f"{label}:conflict:{k}", ok, "a slot already holding a different value is reported as an error, never overwritten or silently accepted", raised2 or {str(k): _fmt(st2.get(k)) if st2 else None}, "error")
+    # partial agreement: one slot already holds the computed value, the others are still empty (the state in the middle
+    # of a sweep when another constraint fixed that slot first) -> no error, the rest is written, progress reported
+    if len(slots) > 1:
+        for k in slots:
+            st3, raised3, ch3 = run_fn({k: vals[k]})
+            ok = not raised3 and all(_same(st3.get(j), vals[j]) for j in slots) and ch3 is True
+            ctx.ob(rule, f"{label}:partial:{k}", ok, "with one slot already holding the agreeing value and the others empty the applier raises nothing, fills the empty slots and reports progress — whichever slot came first", raised3 or {str(j): _fmt(st3.get(j)) for j in slots}, "remaining slots written, resolved=True")
     return vals
 
 
@@ -173,7 +180,7 @@ def _size_constraint(ctx):
     ctx.require_count("R26 size constraint cases", n, 45)
 
 
-def _position_constraint(ctx):
+def _position_constraint(ctx, rule="R26.1", value_rule="R26.5"):
     f = ctx.index.function(f"{INIT}._apply_position_constraint")
     ctx.unit(f.where())
     C = _cls(ctx, "PositionConstraint")
@@ -198,7 +205,7 @@ def _position_constraint(ctx):
                 return {("slice", _a, 0): sl2["obj"][_a][0], ("slice", _a, 1): sl2["obj"][_a][1]}, None, res
 
             label = f"_apply_position_constraint[axis{axis},margin={margin},grid_margin={gmargin}]"
-            vals = _set_once(ctx, "R26.1", label, run_fn, [("slice", axis, 0), ("slice", axis, 1)])
+            vals = _set_once(ctx, rule, label, run_fn, [("slice", axis, 0), ("slice", axis, 1)])
             n += 1
             if vals is None:
                 continue
@@ -209,7 +216,7 @@ def _position_constraint(ctx):
                 anchor = anchor + gmargin * S
             want = [call_atom(f"bfa[{i}]", axis, Rat.atom(f"sz_{axis}"), anchor, Rat.atom("pos")) for i in (0, 1)]
             got = [vals[("slice", axis, 0)], vals[("slice", axis, 1)]]
-            ctx.ob("R26.5", f"{label}:value", all(_same(x, y) for x, y in zip(got, want)), "bounds = bounds_for_anchor(axis, own size, anchor(axis, other's slice on the same axis, other_pos) + margin + grid_margin*spacing, own_pos)", _fmt(got), _fmt(want))
+            ctx.ob(value_rule, f"{label}:value", all(_same(x, y) for x, y in zip(got, want)), "bounds = bounds_for_anchor(axis, own size, anchor(axis, other's slice on the same axis, other_pos) + margin + grid_margin*spacing, own_pos)", _fmt(got), _fmt(want))
     ctx.require_count("R26 position constraint cases", n, 21)
 
 
